@@ -1,5 +1,6 @@
 """C19 - container lifting maps leaf-wise, preserves shape, and is schedule independent (loop, zipper, as_list/as_tuple, waiter)."""
-import asyncio, itertools, copy
+import asyncio, itertools, copy, logging
+logging.getLogger('asyncio').setLevel(logging.CRITICAL)      # cancelled gather children of partial schedules are expected
 from .. import proto
 from ..proto import enc
 from ..engine import Finding
@@ -384,6 +385,52 @@ def run_waiter(wsx, events):
         loop.close()
 
 
+def run_waiter_chain(wsx, events):
+    """the same schedule with LAZY awaitables that hand over to one another: every awaitable is a coroutine that waits for
+    its gate and, when it finishes, opens the gate of the next one in the completion order.  The completion order is then
+    enforced by the awaitables themselves, so a waiter that does not start all of them concurrently (e.g. awaits dict values
+    one after the other) cannot realise an order in which a later member must finish first."""
+    from pyg_base import waiter
+    loop = asyncio.new_event_loop()
+    try:
+        order = [i for i, _ in events]
+        vals = dict(events)
+        nxt = {order[k]: order[k + 1] for k in range(len(order) - 1)}
+        gates = {}
+
+        def gate(n):
+            if n not in gates:
+                gates[n] = loop.create_future()
+            return gates[n]
+
+        async def co(n):
+            await gate(n)
+            if n in nxt:
+                gate(nxt[n]).set_result(None)
+            return vals[n]
+
+        async def main():
+            struct = dec_w(wsx, lambda n: co(n))
+            task = asyncio.ensure_future(waiter(struct))
+            if order:
+                gate(order[0]).set_result(None)
+            for _ in range(SPIN * (len(order) + 1)):
+                await asyncio.sleep(0)
+                if task.done():
+                    break
+            if task.done():
+                return True, task.result()
+            task.cancel()
+            try:
+                await task
+            except BaseException:
+                pass
+            return False, None
+        return loop.run_until_complete(main())
+    finally:
+        loop.close()
+
+
 def lib_leaf(name):
     import pyg_base._txt as T, pyg_base._as_float as A
     return getattr(A if name == 'as_float' else T, '_' + name).function
@@ -395,6 +442,9 @@ def run_line(state, sx):
     if model == 'waiter':
         evs = [(int(e[1].split(':')[1]), proto.dec(e[2])) for e in args[1][1:]]
         done, res = run_waiter(args[0], evs)
+        done2, res2 = run_waiter_chain(args[0], evs)
+        if enc((done2, res2)) != enc((done, res)):
+            return 'ok ' + enc((done2, res2))          # lazy hand-over awaitables behave differently from plain futures: report that outcome
         return 'ok ' + enc((done, res))
     if op == 'call':
         a, kw = proto.dec(args[1]), proto.dec(args[2])
